@@ -71,6 +71,18 @@ func randomRequest(r drv.Rand) request {
 	return q
 }
 
+// requestSequence: first, then the same Host with another Forwarded host, another Host with that
+// same Forwarded host, the first again, the first Host without Forwarded, and the first once more.
+func requestSequence(r drv.Rand, first request) []request {
+	some := func(s string) *string { return &s }
+	otherFwd := drv.Pick(r, []string{"alt.example.org", "alt2.example.org:9443"})
+	otherHost := drv.Pick(r, []string{"other.example.net", "other.example.net:8080"})
+	q2 := request{Host: first.Host, Fwd: []string{"for=9.9.9.9;host=\"" + otherFwd + "\""}, FwdH: some(otherFwd)}
+	q3 := request{Host: otherHost, Fwd: q2.Fwd, FwdH: q2.FwdH}
+	q5 := request{Host: first.Host}
+	return []request{first, q2, q3, first, q5, first}
+}
+
 var grantStrings = []string{"authorization_code", "implicit", "refresh_token", "client_credentials",
 	"urn:ietf:params:oauth:grant-type:token-exchange", "urn:ietf:params:oauth:grant-type:jwt-bearer",
 	"urn:ietf:params:oauth:grant-type:device_code", "password", "urn:ietf:params:oauth:grant-type:saml2-bearer",
@@ -111,27 +123,44 @@ func runConfig(w *emit.Writer, r drv.Rand, c config, sweep string, nPkce int) {
 		q := randomRequest(r)
 		cc := c.coq(eps)
 		base := append(c.tags(rt, eps), "sweep="+sweep)
+		if c.FwdHeader != "" {
+			base = append(base, "fwdheader=custom")
+		}
 		human := map[string]any{"config": c, "router": rt.String(), "request": q, "endpoints": eps}
 
-		// ---- document, endpoint probes, token issuer
-		d, dresp := f.document(rt, q)
-		probes := make([]string, nEps)
-		routedL := make([]string, nEps)
-		panicked := dresp.Panic != ""
-		for i := range probes {
-			probes[i] = f.probePath(rt, i)
-			pr := f.do(rt, q, http.MethodGet, probes[i], nil, nil)
-			panicked = panicked || pr.Panic != ""
-			routedL[i] = emit.Bool(routed(pr))
+		// ---- document, endpoint probes, token issuer: one case per request. For the dynamic
+		// strategies a SEQUENCE of requests goes to this one provider instance (same Host with
+		// different Forwarded, different Host with the same Forwarded, the first again, ...); every
+		// answer is judged on its own request: nothing may depend on what was asked before.
+		seq := []request{q}
+		if c.Strat != stStatic {
+			seq = requestSequence(r, q)
 		}
-		tokIss, p := f.tokenIssuer(rt, q)
-		panicked = panicked || p
-		obs := emit.Ctor("ODoc", emit.Bool(d.ok), emit.Str(d.issuer), optStrList(d.eps), emit.List(routedL), emit.OptStr(tokIss))
-		if panicked {
-			obs = "OPanic"
+		var d document
+		for k, qk := range seq {
+			q = qk
+			var dresp *opfix.Resp
+			d, dresp = f.document(rt, q)
+			probes := make([]string, nEps)
+			routedL := make([]string, nEps)
+			panicked := dresp.Panic != ""
+			for i := range probes {
+				probes[i] = f.probePath(rt, i)
+				pr := f.do(rt, q, http.MethodGet, probes[i], nil, nil)
+				panicked = panicked || pr.Panic != ""
+				routedL[i] = emit.Bool(routed(pr))
+			}
+			tokIss, p := f.tokenIssuer(rt, q)
+			panicked = panicked || p
+			obs := emit.Ctor("ODoc", emit.Bool(d.ok), emit.Str(d.issuer), optStrList(d.eps), emit.List(routedL), emit.OptStr(tokIss))
+			if panicked {
+				obs = "OPanic"
+			}
+			hk := map[string]any{"config": c, "router": rt.String(), "request": q, "endpoints": eps, "position_in_sequence": k, "sequence": seq}
+			w.Add(emit.Case{Input: emit.Ctor("IDoc", routerCoq(rt), cc, q.coq(), emit.StrList(probes)), Observed: obs,
+				Tags: append([]string{"kind=doc", fmt.Sprintf("seq=%d", k)}, base...), Human: hk})
 		}
-		w.Add(emit.Case{Input: emit.Ctor("IDoc", routerCoq(rt), cc, q.coq(), emit.StrList(probes)), Observed: obs,
-			Tags: append([]string{"kind=doc"}, base...), Human: human})
+		human["request"] = q
 
 		// ---- grant types at the token endpoint
 		if eps[iToken].Kind != epNil {
@@ -395,6 +424,9 @@ func main() {
 			v = drv.Pick(r, staticIssuers)
 		}
 		c.Issuer, c.Insecure = v.s, v.insecure
+		if strat == stForwarded && r.Chance(1, 3) {
+			c.FwdHeader = "X-Forwarded-Host" // carries Forwarded syntax (host=...), as WithIssuerFromCustomHeaders expects
+		}
 	}
 	for _, pt := range grid {
 		c := mk(pt.bits)
@@ -460,7 +492,7 @@ func main() {
 
 	err := w.Close(emit.Meta{Property: "C19", Tier: cfg.Tier, Seed: cfg.Seed, Exhaustive: !cfg.Quick && cfg.N == 0,
 		Rule: "grid = 2^5 flags x 2^3 capabilities x {default, custom paths} x {static, host, forwarded} (thorough: all 1536 points, quick: seeded sample), " +
-			"each on both routers with a random request (Host, Forwarded) and issuer variant; mixed = random per-endpoint default/custom/URL/nil; " +
+			"each on both routers with a random request (Host, Forwarded) and issuer variant; for the host / forwarded strategies a sequence of 6 requests (same Host + other Forwarded, other Host + same Forwarded, the first again, no Forwarded, the first again) goes to the one provider instance, one doc case per request; mixed = random per-endpoint default/custom/URL/nil; " +
 			"issuer strings = scheme x authority x path x query marker x fragment marker product + specials; Discover = asked x served variants. " +
 			"Non-trivial = model path class != 0 (everything but the empty-issuer reject); distinct = distinct (input, path class).",
 		Extra: map[string]any{"grid_points": len(grid), "grid_total": 256 * 2 * 3},
